@@ -117,6 +117,75 @@ CHECKS["C12"] = dict(
     technique="Lean 4 theorems over hand model + differential correspondence + numeric-type sweep",
 )
 
+CHECKS["C05"] = dict(
+    category="proof",
+    text=("Lean theorems batch_values_are_means, batch_efficiency(_faithful), chain_telescopes, interval_schedule, interval_state: for every "
+          "data set, callbacks, n, orders and rows the BatchSage values are the per-observation averages of the chain contributions and sum "
+          "to the mean of loss(mean prediction) - loss(own prediction) (original mode = same theorem with the data-set imputer); "
+          "IntervalSage recomputes iff forced or ordinal % interval_length = 0, over exactly the last min(#stored, storage_length) "
+          "observations (via C07 on the regenerated window kernel), otherwise returns the previous values (no callback occurs in that "
+          "branch), seen = number of calls. Tied to batch.py/interval.py by exact-arithmetic correspondence."),
+    design_ref="DESIGN.md section 6, C05", note=TRUST_H + " names must be non-empty; original mode needs the names to cover the model's features.",
+    technique="Lean 4 theorems over hand model (+ regenerated window kernel) + differential correspondence",
+)
+CHECKS["C06"] = dict(
+    category="proof",
+    text=("Lean theorems about the imputer model for every instance, subset, stored rows, n and row choice: inputs agree with the instance "
+          "outside the subset; joint takes all subset features from ONE stored row, product each from some stored row, default from the "
+          "configured values; exactly n predictions; empty subset gives n copies of the unperturbed prediction; meanOutput of n>=1 copies "
+          "of an output with distinct labels is that output (faithfulness used by C01/C05). Non-modification of instance, subset and "
+          "storage is established by deep snapshots in the correspondence run (the model is pure)."),
+    design_ref="DESIGN.md section 6, C06", note=TRUST_H,
+    technique="Lean 4 theorems over hand model + differential correspondence with observable row provenance",
+)
+CHECKS["C11"] = dict(
+    category="proof",
+    text=("Lean theorems about the ring-buffer model for every k>=1 and stream: present entries are a permutation of the last min(n,k) "
+          "inputs, count, mean, variance, std (non-negative root) of exactly those. Tied to sliding_window.py by running the real class "
+          "after every update for k<=5, all lengths <= 3k+2; construction on the installed NumPy is part of the run."),
+    design_ref="DESIGN.md section 6, C11", note=TRUST_H + " np.nanmean/nanvar/nanstd semantics (NumPy) are trusted; comparison within 1e-9 (binary64 buffer).",
+    technique="Lean 4 invariant proof over hand model + differential correspondence",
+)
+CHECKS["C13"] = dict(
+    category="proof",
+    text=("Partial. Lean theorems over an abstract metric with the named hypothesis `revert undoes update from fresh`: any call history "
+          "through any number of adapters sharing the metric returns for each pair the (sign-adjusted) value of a fresh metric after that "
+          "single pair and leaves the metric fresh; the validator probe leaves it fresh; the hypothesis is proved for running-mean metrics. "
+          "River's metric classes themselves are outside /repo: the hypothesis and the property are MONITORED on every metric class the "
+          "installed river offers that validate_loss_function accepts (41), with interleaved shared histories."),
+    design_ref="DESIGN.md section 6, C13", note=TRUST_H + " river metrics' update/revert/get behaviour is monitored, not proved.",
+    technique="Lean 4 theorems over abstract metric + monitored hypothesis on all accepted river metrics",
+)
+CHECKS["C15"] = dict(
+    category="proof",
+    text=("Partial. Lean theorems about the effectful explainer model (any total oracles, library imputer): one call counts one seen sample, "
+          "logs exactly 1 + d*n model evaluations (none on the first call), exactly one storage update which is the last callback (none "
+          "with update_storage=False), returns the importance values, and agrees with the pure layer. The Python-level clauses "
+          "(construction from required arguments, positional loss signature, str/int/float/mixed names as keys, non-modification of x, y, "
+          "names) are decided by sweeps on the real classes."),
+    design_ref="DESIGN.md section 6, C15", note=TRUST_H,
+    technique="Lean 4 theorems over effectful model + constructor/name-type sweeps + call-log correspondence",
+)
+CHECKS["C16"] = dict(
+    category="proof",
+    text=("27 Lean theorems: normalisation keeps keys and ratios, sums to one ('sum'), has range one ('delta'), is all zero for a zero "
+          "normaliser; confidence bound = (1-a)^t + sqrt(var a/((2-a) delta)), non-negative, positive when a<1 or var>0, antitone in delta "
+          "(genuine square root; instantiated for Real.sqrt); tracked variances are >= 0 in every reachable PFI/SAGE state (static, or "
+          "0<=alpha<=1). 'Never NaN or infinite whatever numeric type' is decided by a numeric-type sweep on the real code."),
+    design_ref="DESIGN.md section 6, C16", note=TRUST_H + " math.sqrt is a genuine square root.",
+    technique="Lean 4 theorems over hand model + differential correspondence + numeric-type sweep",
+)
+CHECKS["C17"] = dict(
+    category="proof",
+    text=("Lean theorems pfi/sage_failure_atomic for EVERY oracle (any callback failing at any position or positions, library or user "
+          "imputer): a failing explain_one leaves estimates and seen unchanged; the error is a callback's error; any invariant of the "
+          "estimates (e.g. the C01 identity) survives caught failures over a whole stream. Tied to pfi.py / incremental.py by enumerating "
+          "every fault position (and random pairs) of small configurations on the real classes and comparing post-state, error and call "
+          "log with the model; the identity is re-checked after resuming."),
+    design_ref="DESIGN.md section 6, C17", note=TRUST_H + " BatchSage/IntervalSage keep their values in a local until the end (checked by reading; not modelled with faults).",
+    technique="Lean 4 theorems over state-keeping error monad + exhaustive fault enumeration on the real classes",
+)
+
 NOT_YET = {
 }
 
